@@ -97,6 +97,103 @@ func c15ChainPartners() []c15Shape {
 	}
 }
 
+// c15LateShapes: the stream goes away (client RST_STREAM, or GOAWAY) while frames
+// of the server are still in flight; they arrive afterwards.  Each late header
+// block carries fields that are new to the HPACK dynamic table of the response
+// direction (x-resp / x-trail of that call, and content-type / x-shared /
+// grpc-status when it is the first block of the connection that carries them), and the
+// response blocks of the other call, sent later, refer to the table by index.
+func c15LateShapes(thorough bool) []c15Shape {
+	out := []c15Shape{
+		{Named: true, NReq: 1, Variant: "rstc-late-hdr"},
+		{Named: true, NReq: 1, NResp: 1, Variant: "rstc-late-trail"},
+		{Named: true, NReq: 1, Variant: "goaway-late"},
+		{Named: false, NReq: 0, LateData: true, Variant: "rstc-late-hdr"},
+	}
+	if thorough {
+		out = append(out,
+			c15Shape{Named: true, NReq: 0, LateData: true, Variant: "rstc-late-hdr"},
+			c15Shape{Named: true, NReq: 1, RespHdrCont: 1, Variant: "rstc-late-hdr"},
+			c15Shape{Named: true, Cont: true, NReq: 1, RespHdrCont: 2, RespCont: true, RespContN: 2, Variant: "rstc-late-hdr"},
+			c15Shape{Named: true, NReq: 2, NResp: 2, LateData: true, Variant: "rstc-late-trail"},
+			c15Shape{Named: true, NReq: 1, NResp: 0, Bidi: true, Variant: "rstc-late-trail"},
+			c15Shape{Named: true, NReq: 1, NResp: 1, RespCont: true, Variant: "rstc-late-trail"},
+			c15Shape{Named: true, NReq: 0, LateData: true, Variant: "goaway-late"},
+			c15Shape{Named: true, NReq: 1, RespHdrCont: 1, RespCont: true, Variant: "goaway-late"},
+			c15Shape{Named: false, NReq: 1, NResp: 1, Variant: "rstc-late-trail"},
+			c15Shape{Named: false, NReq: 1, Variant: "goaway-late"},
+		)
+	}
+	return out
+}
+
+// c15LatePartners: the other call of a connection with a late shape; its response
+// header blocks (headers, trailers, trailers-only, with and without CONTINUATION)
+// repeat fields of the late blocks and are encoded after them in part of the interleavings.
+func c15LatePartners(thorough bool) []c15Shape {
+	out := []c15Shape{
+		{Named: true, NReq: 1, NResp: 1},
+		{Named: true, NReq: 1, NResp: 0, RespCont: true},
+		{Named: false, NReq: 1, NResp: 1},
+	}
+	if thorough {
+		out = append(out,
+			c15Shape{Named: true, NReq: 0, Resp: 1},
+			c15Shape{Named: true, Cont: true, NReq: 1, ReqEnd: 1, NResp: 0},
+			c15Shape{Named: true, NReq: 1, NResp: 1, Bidi: true},
+			c15Shape{Named: true, NReq: 1, NResp: 1, Variant: "rsts-mid"},
+			c15Shape{Named: true, NReq: 1, NResp: 1, Variant: "refused-retry"},
+			c15Shape{Named: true, NReq: 1, NResp: 1, RespHdrCont: 2},
+		)
+	}
+	return out
+}
+
+// c15PieceShapes: one enveloped message spread over three and four DATA frames of
+// its stream (request side, response side, both), alone and followed by a second
+// message that travels in its own DATA frame or starts in the frame of the last piece.
+func c15PieceShapes(thorough bool) (wide, narrow []c15Shape) {
+	// wide: paired with every piece partner; narrow (more frames): with the first partner only
+	wide = []c15Shape{
+		{Named: true, NReq: 1, ReqPieces: 3, NResp: 0},
+		{Named: true, NReq: 0, NResp: 1, RespPieces: 3},
+		{Named: true, NReq: 2, ReqPieces: 4, NResp: 0, Glue: true},
+	}
+	narrow = []c15Shape{
+		{Named: true, NReq: 0, NResp: 2, RespPieces: 4},
+		{Named: true, NReq: 2, ReqPieces: 3, NResp: 2, RespPieces: 3, Glue: true},
+	}
+	if thorough {
+		wide = append(wide,
+			c15Shape{Named: true, NReq: 1, ReqPieces: 4, NResp: 0},
+			c15Shape{Named: true, NReq: 2, ReqPieces: 3, NResp: 0},
+			c15Shape{Named: true, NReq: 2, ReqPieces: 3, NResp: 0, Glue: true},
+			c15Shape{Named: true, NReq: 2, ReqPieces: 3, ReqEnd: 1, NResp: 0},
+			c15Shape{Named: true, NReq: 0, NResp: 1, RespPieces: 4},
+			c15Shape{Named: true, NReq: 0, NResp: 2, RespPieces: 3},
+			c15Shape{Named: true, NReq: 0, NResp: 2, RespPieces: 3, Glue: true},
+			c15Shape{Named: true, NReq: 1, ReqPieces: 3, NResp: 1, Bidi: true},
+			c15Shape{Named: true, NReq: 1, ReqPieces: 3, Variant: "rstc-early"},
+			c15Shape{Named: true, NReq: 1, NResp: 1, RespPieces: 3, Variant: "rsts-mid"},
+			c15Shape{Named: false, NReq: 1, ReqPieces: 3, NResp: 1, RespPieces: 3},
+		)
+		narrow = append(narrow,
+			c15Shape{Named: true, NReq: 2, ReqPieces: 4, NResp: 0},
+			c15Shape{Named: true, NReq: 0, NResp: 2, RespPieces: 4, Glue: true},
+			c15Shape{Named: true, NReq: 1, ReqPieces: 4, NResp: 1, RespPieces: 4},
+			c15Shape{Named: true, NReq: 2, ReqPieces: 3, NResp: 2, RespPieces: 3},
+		)
+	}
+	return wide, narrow
+}
+
+func c15PiecePartners() []c15Shape {
+	return []c15Shape{
+		{Named: true, NReq: 1, NResp: 1},
+		{Named: false, NReq: 1, NResp: 1},
+	}
+}
+
 // c15MiniShapes: pairs of these get every single cut under every interleaving (thorough).
 func c15MiniShapes() []c15Shape {
 	return []c15Shape{
@@ -179,7 +276,7 @@ func c15Pairs(thorough bool) []c15Pair {
 	var pairs []c15Pair
 	seen := map[string]bool{}
 	add := func(a, b c15Shape) {
-		if a.Variant == "goaway" { // GOAWAY(last-stream-id 1) is part of the script of stream 3
+		if a.Variant == "goaway" || a.Variant == "goaway-late" { // GOAWAY(last-stream-id 1) is part of the script of stream 3
 			return
 		}
 		key := a.String() + "|" + b.String()
@@ -209,6 +306,43 @@ func c15Pairs(thorough bool) []c15Pair {
 			add(x, y)
 			add(y, x)
 		}
+	}
+	// late frames for a stream that is gone: every late shape with every late partner (both
+	// orders), and the late shapes with each other
+	late := c15LateShapes(thorough)
+	for _, x := range late {
+		for _, y := range c15LatePartners(thorough) {
+			add(x, y)
+			add(y, x)
+		}
+	}
+	for xi, x := range late {
+		for yi, y := range late {
+			if thorough || (xi < 3 && yi < 3) {
+				add(x, y)
+			}
+		}
+	}
+	// one message in 3 and 4 DATA frames
+	wide, narrow := c15PieceShapes(thorough)
+	pp := c15PiecePartners()
+	for _, x := range wide {
+		for _, y := range pp {
+			add(x, y)
+			add(y, x)
+		}
+	}
+	for _, x := range narrow {
+		add(x, pp[0])
+		add(pp[0], x)
+	}
+	add(wide[0], wide[1]) // pieces of both calls interleaved
+	add(wide[1], wide[0])
+	if thorough {
+		add(wide[2], wide[0])
+		add(wide[1], wide[2])
+		add(late[0], wide[1])
+		add(wide[0], late[2])
 	}
 	if thorough {
 		t := c15ThoroughShapes()
@@ -392,6 +526,9 @@ func (x *c15AttrRun) pair(pi int, p c15Pair, thorough bool, mini bool) {
 	if len(orders) == 0 {
 		return
 	}
+	if x.r.Shard == 0 {
+		c15CountSpecial(x.r, bt, orders)
+	}
 	// baseline per side: first interleaving (A as early as allowed), whole runs
 	var baseKeys [2]map[string]bool
 	baseUnits := c15Encode(c15Merge(bt.a, bt.b, orders[0]))
@@ -456,6 +593,56 @@ func (x *c15AttrRun) pair(pi int, p c15Pair, thorough bool, mini bool) {
 	}
 }
 
+// c15CountSpecial counts (once, on shard 0) the interleavings in which the
+// situations the late / piece shapes exist for really occur.
+func c15CountSpecial(r *rep.Report, bt *c15Built, orders [][]byte) {
+	pieces := false
+	for _, sh := range bt.shapes {
+		if sh.ReqPieces >= 3 || sh.RespPieces >= 3 {
+			pieces = true
+		}
+	}
+	if pieces {
+		r.Count("interleavings:message-in-3-or-4-data-frames", int64(len(orders)))
+	}
+	hasLate := false
+	for _, it := range append(append([]c15Item(nil), bt.a...), bt.b...) {
+		hasLate = hasLate || it.Late
+	}
+	if !hasLate {
+		return
+	}
+	var n int64
+	for _, order := range orders {
+		// a late header block, later a response header block of the other call
+		lateOf := -1
+		hit := false
+		i, j := 0, 0
+		for _, c := range order {
+			var it c15Item
+			if c == 0 {
+				it = bt.a[i]
+				i++
+			} else {
+				it = bt.b[j]
+				j++
+			}
+			if it.Kind != 'H' || it.Dir != c15DirResp {
+				continue
+			}
+			if it.Late && lateOf < 0 {
+				lateOf = it.Call
+			} else if !it.Late && lateOf >= 0 && it.Call != lateOf {
+				hit = true
+			}
+		}
+		if hit {
+			n++
+		}
+	}
+	r.Count("interleavings:late-header-block-then-response-block-of-other-call", n)
+}
+
 func c15UnitNames(bt *c15Built, order []byte) []string {
 	items := c15Merge(bt.a, bt.b, order)
 	out := make([]string, len(items))
@@ -517,7 +704,14 @@ func TestVerifC15Attr(t *testing.T) {
 			x.pair(pi, p, thorough, mini[p.A.String()+"|"+p.B.String()])
 		})
 	}
-	r.Extra["bound"] = fmt.Sprintf("two calls per connection; call shapes: %d quick / %d thorough (0-2 DATA frames per direction, request / response / trailer header blocks of 1-2 fragments, and %d quick / %d thorough chain shapes with blocks of 3-4 fragments (HEADERS + 2..3 CONTINUATION) paired with %d partner shapes and each other, END_STREAM on last frame or on an empty DATA, trailers or trailers-only, RST_STREAM by either side early/mid, REFUSED_STREAM+retry, GOAWAY(last-stream-id 1), no test name); all interleavings; every single cut only for the first/middle/last interleaving of a pair (thorough: all interleavings for %d mini shapes squared)", len(c15QuickShapes()), len(c15ThoroughShapes()), len(c15ChainShapes(false)), len(c15ChainShapes(true)), len(c15ChainPartners()), len(c15MiniShapes()))
+	r.Extra["bound"] = fmt.Sprintf("two calls per connection; call shapes: %d quick / %d thorough (0-2 DATA frames per direction, request / response / trailer header blocks of 1-2 fragments, and %d quick / %d thorough chain shapes with blocks of 3-4 fragments (HEADERS + 2..3 CONTINUATION) paired with %d partner shapes and each other, END_STREAM on last frame or on an empty DATA, trailers or trailers-only, RST_STREAM by either side early/mid, REFUSED_STREAM+retry, GOAWAY(last-stream-id 1), no test name; %d quick / %d thorough late shapes (response HEADERS / DATA / trailers arriving after the client's RST_STREAM or after the GOAWAY that dropped the stream) with %d / %d partners; %d quick / %d thorough shapes with one message in 3-4 DATA frames); all interleavings; every single cut only for the first/middle/last interleaving of a pair (thorough: all interleavings for %d mini shapes squared)", len(c15QuickShapes()), len(c15ThoroughShapes()), len(c15ChainShapes(false)), len(c15ChainShapes(true)), len(c15ChainPartners()),
+		len(c15LateShapes(false)), len(c15LateShapes(true)), len(c15LatePartners(false)), len(c15LatePartners(true)), c15NPieceShapes(false), c15NPieceShapes(true),
+		len(c15MiniShapes()))
+}
+
+func c15NPieceShapes(thorough bool) int {
+	w, n := c15PieceShapes(thorough)
+	return len(w) + len(n)
 }
 
 func c15ReplayAttr(t *testing.T, r *rep.Report, in []byte) {
